@@ -98,6 +98,7 @@ fn dispatch(group: &str, case: &Value, rep: &mut util::Report, rng: &mut util::R
         "optimizer" => terms::replay_optimizer(case, rep, rng),
         "objective" => terms::replay_objective(case, rep, rng),
         "activation" => terms::replay_activation(case, rep),
+        "softmaxce" => terms::replay_softmaxce(case, rep),
         _ => panic!("unknown group {}", group),
     }
 }
